@@ -1,11 +1,12 @@
 SPECIFICATION Spec
 CONSTANTS
   Fams = {"adjacent", "stacked"}
-  MaxRoutes = 3
+  MaxRoutes = 2
   PerClass = 4
   DEV_RemoveNoRebuild = FALSE
   DEV_MoveNoRebuild = FALSE
   DEV_CopyMisMaps = FALSE
   DEV_PickleNoRebuild = FALSE
   DEV_AddRebuildsFirst = FALSE
+  DEV_DiscHalfRadius = FALSE
 INVARIANT Emit
